@@ -295,7 +295,152 @@ func execSvcRace(a []string) string {
 	return "ok"
 }
 
+// ---- removal of a busy object -------------------------------------------------------------------
+
+type busyImpl struct {
+	lifeImpl
+	slow time.Duration
+}
+
+func (p *busyImpl) Hello(a string) (string, error) {
+	atomic.AddInt64(&p.calls, 1)
+	time.Sleep(p.slow)
+	return "echo:" + a, nil
+}
+
+// svc.busy <clients> <rounds> <seed>: an object that takes its time is called by several clients at
+// once — its mailbox is full, further messages wait for room — and is removed meanwhile (locally,
+// or by a client's terminate request).  Every call gets an answer; a call made after the removal
+// has been acknowledged gets an error and does not reach the object; the hook has run once; the
+// sibling object goes on answering.  Runs in a process of its own.
+func childSvcBusy(a []string) string {
+	log.SetOutput(ioutil.Discard)
+	nc, _ := strconv.Atoi(a[0])
+	rounds, _ := strconv.Atoi(a[1])
+	seed, _ := strconv.ParseUint(a[2], 10, 64)
+	r := NewRand(seed)
+	addr := util.NewUnixAddr()
+	l, err := qnet.Listen(addr)
+	if err != nil {
+		return "setup-error"
+	}
+	srv, err := bus.StandAloneServer(l, bus.Yes{}, bus.PrivateNamespace())
+	if err != nil {
+		return "setup-error"
+	}
+	defer srv.Terminate()
+	service, err := srv.NewService("Probe", pong.PingPongObject(&lifeImpl{}))
+	if err != nil {
+		return "setup-error"
+	}
+	sid := service.ServiceID()
+	var clients []bus.Client
+	for i := 0; i < nc; i++ {
+		ep, err := qnet.DialEndPoint(addr)
+		if err != nil {
+			return "setup-error:" + err.Error()
+		}
+		defer ep.Close()
+		if err := bus.AuthenticateUser(ep, "", ""); err != nil {
+			return "setup-error:" + err.Error()
+		}
+		clients = append(clients, bus.NewClient(bus.NewContext(ep)))
+	}
+	for round := 0; round < rounds; round++ {
+		impl := &busyImpl{slow: time.Duration(200+r.Intn(2000)) * time.Microsecond}
+		sibling := &lifeImpl{}
+		id, err := service.Add(pong.PingPongObject(impl))
+		if err != nil {
+			return "setup-error"
+		}
+		sid2, err := service.Add(pong.PingPongObject(sibling))
+		if err != nil {
+			return "setup-error"
+		}
+		var wg sync.WaitGroup
+		stop := make(chan struct{})
+		fails := make(chan string, nc*8)
+		for c := 0; c < nc; c++ {
+			for k := 0; k < 6; k++ { // six calls in flight per connection
+				wg.Add(1)
+				go func(cl bus.Client) {
+					defer wg.Done()
+					for {
+						select {
+						case <-stop:
+							return
+						default:
+						}
+						if callT(cl, sid, id, 100, strPayload("x"), 5*time.Second) == "timeout" {
+							fails <- "a call made around the removal was never answered"
+							return
+						}
+					}
+				}(clients[c])
+			}
+		}
+		time.Sleep(time.Duration(1+r.Intn(8)) * time.Millisecond)
+		if round%2 == 0 {
+			if service.Remove(id) != nil {
+				close(stop)
+				return "fail:remove-refused"
+			}
+		} else if callT(clients[0], sid, id, 3, le32b(id), 5*time.Second) != "reply" {
+			close(stop)
+			return "fail:terminate-not-answered"
+		}
+		time.Sleep(time.Duration(r.Intn(3)) * time.Millisecond)
+		close(stop)
+		wg.Wait()
+		select {
+		case f := <-fails:
+			return "fail:" + f
+		default:
+		}
+		// what was queued before the removal may still be served; once that has drained, nothing reaches the object
+		before := atomic.LoadInt64(&impl.calls)
+		for i := 0; i < 200; i++ {
+			time.Sleep(2 * time.Millisecond)
+			now := atomic.LoadInt64(&impl.calls)
+			if now == before {
+				break
+			}
+			before = now
+		}
+		for _, cl := range clients {
+			if got := callT(cl, sid, id, 100, strPayload("late"), 3*time.Second); got != "error" {
+				return "fail:call-after-removal-" + got
+			}
+		}
+		if atomic.LoadInt64(&impl.calls) != before {
+			return "fail:removed-object-invoked"
+		}
+		if t := atomic.LoadInt64(&impl.terms); t != 1 {
+			return fmt.Sprintf("fail:termination-hook-ran-%d-times", t)
+		}
+		if atomic.LoadInt64(&sibling.terms) != 0 {
+			return "fail:sibling-terminated"
+		}
+		if callT(clients[0], sid, sid2, 100, strPayload("x"), 3*time.Second) != "reply" {
+			return "fail:sibling-unreachable"
+		}
+		service.Remove(sid2)
+	}
+	return "ok"
+}
+
 func init() {
+	children["svc.busy"] = childSvcBusy
+	executors["svc.busy"] = func(a []string) string {
+		out := runChild("svc.busy", strings.Join(a, " "), 120*time.Second, 0)
+		if out.Result != "ok" {
+			lastFailDetail = out.Stderr
+		}
+		if out.Result == "crash-noresult" {
+			return "crash"
+		}
+		return out.Result
+	}
 	for _, op := range []string{"reset", "add", "remove", "call", "term", "sub", "state"} {
 		executors["svc."+op] = execSvc(op)
 	}
@@ -431,6 +576,18 @@ func runC16(r *Rand, tier string, o *Out) {
 		o.Count("op:concurrent-remove")
 		if res != "ok" {
 			o.Fail("concurrent removals of one object: "+strings.TrimPrefix(res, "fail:"), op+" => "+res)
+		}
+	}
+	busy := [][2]int{{1, 6}, {3, 6}}
+	if tier == "thorough" {
+		busy = [][2]int{{1, 100}, {2, 100}, {4, 100}, {8, 60}}
+	}
+	for _, b := range busy {
+		op := fmt.Sprintf("svc.busy %d %d %d", b[0], b[1], r.U64()>>1)
+		res := o.Do("P", op, true)
+		o.Count("op:remove-busy-object")
+		if res != "ok" {
+			o.Fail("removal of a busy object: "+strings.TrimPrefix(res, "fail:"), op+" => "+res+" "+crashReason(lastFailDetail))
 		}
 	}
 	if life != nil {
